@@ -155,6 +155,44 @@ MUTANTS = [
     ("c09_struct_array_checks_first_only", "C09", V,
      "        if any(not isinstance(v, self._ctype) for v in value):\n            raise TypeError(f\"Expected {value} to be an {self._ctype.__name__}.\")",
      "        if any(not isinstance(v, self._ctype) for v in list(value)[:1]):\n            raise TypeError(f\"Expected {value} to be an {self._ctype.__name__}.\")"),
+    # ---- one-hunk reversions of the fix: commits (the violation must be reported again if it returns)
+    ("rev_7de2086_send_to_loggers_no_snapshot", "C03", M,
+     "        for module in list(self.logger_modules):", "        for module in self.logger_modules:"),
+    ("rev_951c235_forward_no_skip_removed", "C03", M,
+     "            if module.conn not in self.modules:\n                continue\n            if module.conn in self.wlist:",
+     "            if module.conn in self.wlist:"),
+    ("rev_420e381_active_clients_no_snapshot", "C03", M,
+     "enumerate(list(self.modules.items()))", "enumerate(self.modules.items())"),
+    ("rev_e24b0b9_ack_removed_module", "C03", M,
+     "        if src_module.conn not in self.modules:\n            return\n\n        header = self.header_cls()",
+     "        header = self.header_cls()"),
+    ("rev_912f894_nonascii_set_name", "C03", M,
+     "            src_module.name = name_msg.name or \"\"\n        except UnicodeDecodeError:",
+     "            src_module.name = name_msg.name or \"\"\n        except KeyError:"),
+    ("rev_5c5a151_dyn_exhaustion", "C03", M,
+     "                module.mod_id = self.assign_module_id()\n            except RuntimeError:",
+     "                module.mod_id = self.assign_module_id()\n            except KeyError:"),
+    ("rev_292adb4_active_clients_overflow", "C03", M,
+     "            if i < cd.MAX_ACTIVE_CLIENTS:", "            if True:"),
+    ("rev_0009ded_ctx_iterates_original", "C02", CL,
+     "        for mt in list(msg_list):  # iterate over a copy, entries are removed below\n            if mt not in self.subscribed_types:",
+     "        for mt in msg_list:\n            if mt not in self.subscribed_types:"),
+    ("rev_307ad31_ctx_paused_not_restored", "C02", CL,
+     "        if paused:\n            self.pause_subscription(paused)", "        if False:\n            self.pause_subscription(paused)"),
+    ("rev_68f7b2b_rst_keeps_connected", "C08", CL,
+     "            header.recv_time = time.perf_counter()\n        except ConnectionError:\n            self._connected = False\n            raise ConnectionLost",
+     "            header.recv_time = time.perf_counter()\n        except ConnectionError:\n            raise ConnectionLost"),
+    ("rev_ac95734_drain_raw_reset", "C08", CL,
+     "            return self._sock.recv(nbytes, socket.MSG_WAITALL)\n        except ConnectionError:",
+     "            return self._sock.recv(nbytes, socket.MSG_WAITALL)\n        except KeyError:"),
+    ("rev_57e983d_float_array_maxmin", "C09", V,
+     "            if any(math.isinf(self._ctype(v).value) for v in value):",
+     "            if math.isinf(self._ctype(max(value)).value) or math.isinf(self._ctype(min(value)).value):"),
+    ("rev_4e42bf9_traffic_first_entry_again", "C18", M,
+     "                for i, (mt, count) in enumerate(chunk):\n                    data.msg_type[i] = mt\n                    data.msg_count[i] = count\n",
+     "                for i, (mt, count) in enumerate(chunk):\n                    data.msg_type[i] = mt\n                    data.msg_count[i] = count\n                    if i == 0 and len(chunk) > 1:\n                        self.send_message(data)\n"),
+    ("rev_double_removal_guard", "C03", M,
+     "        if self.modules.get(module.conn) is not module:\n            return\n", ""),
     ("c03_size_check_off_by_one", "C03", M,
      "if data_size < 0 or data_size > len(self.data_buffer):", "if data_size < -1 or data_size > len(self.data_buffer):"),
 ]
